@@ -184,7 +184,7 @@ def _main(eng: Engine, tier: str, seed: int, opts: Any) -> int:
 	done = state['done']
 	sim_time = state['sim_time']
 	for rec in eng.extra_passes(ev, tier, seed):
-		violations.append(({'case': rec['case'], 'label': rec.get('label', 'enum')}, rec['violation']))
+		violations.append(({'case': rec['case'], 'label': rec.get('label', 'enum'), 'from_pass': True}, rec['violation']))
 	ev.coverage['canonical_histories'] = len(canon)
 	ev.coverage['seeded_runs_done'] = max(0, done - len(canon))
 	ev.coverage['seeded_runs_planned'] = n_seeded
@@ -205,6 +205,17 @@ def _main(eng: Engine, tier: str, seed: int, opts: Any) -> int:
 			continue
 		reported.add(sig)
 		case = res['case']
+		if res.get('from_pass'):
+			# found by an enumeration / spot-check pass: the case names the exact input; execute() re-derives it on replay
+			res2 = eng.execute(case)
+			again = [x for x in res2.get('violations', []) if x.get('class') == v['class']]
+			if not again:
+				raise HarnessError(f"violation {v['class']} from a pass did not reproduce through execute(): {json.dumps(v, default=str)[:500]}")
+			path = core.write_replay(eng.prop, seed, res.get('label', 'pass'), {'case': case, 'violation': again[0]})
+			print(f"violation: class={again[0]['class']} detail={json.dumps(again[0].get('detail'), default=str)[:800]}")
+			print(f'VIOLATION property={eng.prop} replay={path}')
+			exit_code = 1
+			continue
 		try:
 			small = eng.minimise(case, v['class'])
 		except Exception as e:  # minimisation is best effort
